@@ -1101,3 +1101,30 @@ mut("C14", "r14-getcontroller-no-recheck", "database/controllers.go",
     "C14-R14|database.getController", comment="reverts fix 0e38976")
 clone("C14-r14-getcontroller-no-recheck", "C02", "r22-getcontroller-no-recheck", "C02-R22|database.getController", "reverts fix 0e38976")
 clone("C14-r14-getcontroller-no-recheck", "C13", "r17-getcontroller-no-recheck", "C13-R17|database.getController", "reverts fix 0e38976")
+
+def r10(prop, name, seed, expect):
+    from_patch(prop, name, seed, expect, comment="round-10 seed " + seed)
+r10("C01", "r1-ready-to-stop-negation-moved", "C01-j2", "C01-R1|modules.(*Module).readyToStop")
+r10("C02", "r23-bbolt-get-hands-out-tx-memory", "C02-j1", "C02-R23|")
+r10("C03", "r14-hashmap-query-flags-before-lock", "C03-j1", "C03-R14|")
+r10("C04", "r19-allowed-value-assignable-only", "C04-j2", "C04-R19|")
+r10("C05", "r16-manage-lock-only-around-tree", "C05-j1", "C05-R16|modules.ManageModules")
+r10("C07", "r20-isactive-or", "C07-j2", "C07-R20|modules.(*Task).isActive")
+r10("C08", "r15-bbolt-query-sends-iter-wrapper", "C08-j1", "C08-R15|")
+r10("C08", "r16-peekcontainer-negative-empty", "C08-j2", "C08-R16|")
+r10("C09", "r16-json-dump-from-pooled-buffer", "C09-j1", "C09-R16|")
+r10("C09", "r15-json-decoded-by-yaml", "C09-j2", "C09-R15|")
+r10("C10", "r11-skip-releases-local-copy", "C10-j1", "C10-R11|container.(*Container).skip")
+r10("C10", "r11-peek-indexes-at-len", "C10-j2", "C10-R11|container.(*Container).Peek")
+r10("C11", "r22-and-appends-onto-first-group", "C11-j1", "C11-R22|database/query.And")
+r10("C11", "r23-print-strips-on-suffix", "C11-j2", "C11-R23|")
+r10("C12", "r18-clean-sessions-writes-back-copy", "C12-j1", "C12-R18|")
+r10("C13", "r18-get-defers-unlock-of-reassigned", "C13-j1", "C13-R18|database.(*Controller).Get")
+r10("C13", "r19-and-clause-closed-on-typeset", "C13-j2", "C13-R19|")
+r10("C11", "r24-and-clause-closed-on-typeset", "C13-j2", "C11-R24|")
+r10("C15", "r12-status-entries-share-one-record", "C15-j1", "C15-R12|modules.GetStatus")
+r10("C16", "r19-writeallto-consumes", "C16-j1", "C16-R19|container.(*Container).WriteAllTo")
+r10("C16", "r19-holdsdata-nil-test", "C16-j2", "C16-R19|container.(*Container).HoldsData")
+r10("C17", "r13-copy-drops-tempdir", "C17-j1", "C17-R13|utils.CopyFileAtomic")
+r10("C18", "r9-bridge-prefix-without-separator", "C18-j2", "C18-R9|")
+r10("C19", "r22-export-shares-version-list", "C19-j1", "C19-R22|")
